@@ -8,7 +8,10 @@ import (
 	"flag"
 	"fmt"
 	"os"
+	"os/exec"
 	"path/filepath"
+	"runtime/debug"
+	"strings"
 	"time"
 
 	v1 "github.com/google/go-containerregistry/pkg/v1"
@@ -23,6 +26,7 @@ import (
 	"package-operator.run/internal/apis/manifests"
 	internalcmd "package-operator.run/internal/cmd"
 	"package-operator.run/internal/packages"
+	"package-operator.run/internal/transform"
 )
 
 // C19: shape classes (spec/Shapes.tla) of externally controlled inputs, each run through the real entry
@@ -247,6 +251,62 @@ var sourceItemShapes = map[string][2]string{
 	"destClash":      {".data", ".a.b"},
 }
 
+// include shapes: template recursion through `include` (package templates and ObjectTemplate templates share the
+// function). A recursion that is not stopped ends in a fatal stack overflow, which no recover() can catch, so each
+// of these rows runs in a child process (pkosim shape-one); a child that dies is a crash of package-operator.
+var includeShapes = map[string]string{
+	"selfRecursion":    `{{define "walk"}}{{include "walk" .}}{{end}}{{include "walk" .}}`,
+	"mutualRecursion":  `{{define "ping"}}{{include "pong" .}}{{end}}{{define "pong"}}{{include "ping" .}}{{end}}{{include "ping" .}}`,
+	"recurseAfterLeaf": `{{define "walk"}}{{if .leaf}}x{{else}}{{include "walk" (dict "leaf" true)}}{{include "walk" .}}{{end}}{{end}}{{include "walk" (dict "leaf" false)}}`,
+	"recurseTwice":     `{{define "walk"}}{{if .leaf}}x{{else}}{{include "walk" (dict "leaf" true)}}{{include "walk" (dict "leaf" true)}}{{include "walk" .}}{{end}}{{end}}{{include "walk" (dict "leaf" false)}}`,
+	"finiteDepth":      `{{define "down"}}{{if gt (int .n) 0}}{{include "down" (dict "n" (sub (int .n) 1))}}{{else}}x{{end}}{{end}}{{include "down" (dict "n" 200)}}`,
+}
+
+func runIncludeShape(entry, shape string) error {
+	tmpl := includeShapes[shape]
+	switch entry {
+	case "render-include":
+		fs := packages.Files{"manifest.yaml": []byte(manifestYAML("app", "")),
+			"a.yaml.gotmpl": []byte(cmDoc("cm1", "p1", "v") + "# " + tmpl + "\n")}
+		return renderFiles(fs, map[string]any{"x": "str"})
+	case "template-include":
+		t, err := transform.TemplateWithSprigFuncs("apiVersion: v1\nkind: ConfigMap\nmetadata:\n  name: out\ndata:\n  a: \"" + tmpl + "\"\n")
+		if err != nil {
+			return err
+		}
+		var b strings.Builder
+		return t.Execute(&b, map[string]any{"config": map[string]any{}})
+	}
+	return fmt.Errorf("unknown entry %s", entry)
+}
+
+// isolated runs one include row in a child process and classifies how it ended.
+func isolated(entry, shape string) (outcome, detail string) {
+	exe, err := os.Executable()
+	if err != nil {
+		return "error", "no executable: " + err.Error()
+	}
+	ctx, cancel := context.WithTimeout(context.Background(), 60*time.Second)
+	defer cancel()
+	out, err := exec.CommandContext(ctx, exe, "shape-one", "-mode", entry, "-profile", shape, "-out", os.DevNull).CombinedOutput()
+	text := string(out)
+	if i := strings.Index(text, "C19OUTCOME "); i >= 0 && err == nil {
+		f := strings.SplitN(strings.TrimSpace(strings.SplitN(text[i+len("C19OUTCOME "):], "\n", 2)[0]), " ", 2)
+		if len(f) == 2 {
+			return f[0], f[1]
+		}
+		return f[0], ""
+	}
+	if ctx.Err() != nil {
+		return "timeout", "child process did not finish"
+	}
+	first := strings.SplitN(strings.TrimSpace(text), "\n", 2)[0]
+	if len(first) > 160 {
+		first = first[:160]
+	}
+	return "panic", "child process died: " + first
+}
+
 func (w *World) c19Emit(entry, shape, outcome, detail string) {
 	w.Emit(Event{Actor: "c19", Ev: "C19Row", Key: "-", Res: outcome, Args: map[string]any{"entry": entry, "shape": shape, "outcome": outcome, "detail": detail}})
 }
@@ -272,6 +332,13 @@ func (w *World) c19Pass(entry, shape, actor string, k Key) {
 }
 
 func init() {
+	// child process of the include rows: a small stack limit makes unbounded recursion die quickly
+	extraDrivers["shape-one"] = func(w *World, _ *flag.FlagSet, a driverArgs) int {
+		debug.SetMaxStack(64 << 20)
+		o, d := guarded(func() error { return runIncludeShape(a.mode, a.profile) })
+		fmt.Printf("C19OUTCOME %s %s\n", o, strings.ReplaceAll(d, "\n", " "))
+		return 0
+	}
 	extraDrivers["shape-table"] = func(w *World, _ *flag.FlagSet, a driverArgs) int {
 		w.KeepEvents = true
 		w.Reset("shape-table")
@@ -311,6 +378,12 @@ func init() {
 			_ = writePackageDir(scratch, fs)
 			o, d = guarded(func() error { _, err := tree.RenderPackage(context.Background(), scratch); return err })
 			w.c19Emit("cli-tree-object", shape, o, d)
+		}
+		for _, entry := range []string{"render-include", "template-include"} {
+			for _, shape := range sortedStr(includeShapes) {
+				o, d := isolated(entry, shape)
+				w.c19Emit(entry, shape, o, d)
+			}
 		}
 		for _, shape := range sortedStr(ociShapes) {
 			b := ociShapes[shape]()
